@@ -52,6 +52,15 @@ pub fn gen_frames(r: &mut Rng, thorough: bool, cx: &mut Ctx) {
                         frame_id: if last == 1 { FrameId::LastFrameId(id) } else { FrameId::CurrentFrameId(id) }, device_address: addr, data_len: dlen as u8, data };
         emit_frame(cx, &f);
     } } } } }
+    // every frame id 0..=4095 (both id kinds) and a lattice of addresses (thorough: every address)
+    for id in 0..4096u16 { for last in 0..2 {
+        let sh = r.coin(); let mut f = gen_frame(r, sh);
+        f.frame_id = if last == 1 { FrameId::LastFrameId(id) } else { FrameId::CurrentFrameId(id) };
+        if sh { if f.multi_frame_flag { f.data[0] = id as u8; f.start_frame_flag = last == 1; } else { continue; } }
+        emit_frame(cx, &f);
+    } }
+    let addrs: Vec<u16> = if thorough { (0..=65535u16).collect() } else { (0..256u16).chain((0..256).map(|x| x << 8)).chain((0..256).map(|x| x * 257)).collect() };
+    for a in addrs { let sh = r.coin(); let mut f = gen_frame(r, sh); f.device_address = a; emit_frame(cx, &f); }
     for _ in 0..(if thorough { 400000 } else { 20000 }) { let shaped = r.chance(2, 3); let f = gen_frame(r, shaped); emit_frame(cx, &f); }
 }
 
